@@ -139,11 +139,11 @@ CLAIMS.update({
          "those tokens in order, each span covering exactly its text, by induction over lines and tokens. ReadsAs is proved, with the token "
          "value denoted, for every symbol (maximal munch: in front of any continuation of which no longer symbol is a prefix), every "
          "keyword and identifier (plain, @ and ! flavoured; in front of any non-word character), every decimal / 0x / 0o / 0b literal with "
-         "single underscores between ASCII digits (in front of anything that does not continue the digit class), every string literal "
+         "single underscores between digits - ASCII or any Unicode digit the lexer accepts (in front of anything that does not continue the digit class), every string literal "
          "with simple, \\xHH and \\u{...} escapes and every plain or escaped one-byte character literal (in front of anything); so sources written without any "
          "white space between tokens are covered). The model is tied by the lex suite (tokens, spans, error positions); an "
-         "independent integer-literal and escape oracle and the re-layout searcher run on the real lexer. Not proved: non-ASCII "
-         "digits in literal pieces (re-layout searcher only).", "machine-checked proof (Lean 4) about a hand-written model + token-level correspondence", "6 C12"),
+         "independent integer-literal and escape oracle and the re-layout searcher run on the real lexer. Not proved: the converse (that every text "
+         "the lexer accepts as a token has one of these forms); the re-layout searcher runs arbitrary token texts through the real lexer.", "machine-checked proof (Lean 4) about a hand-written model + token-level correspondence", "6 C12"),
  'C16': ("proof", "Proof of (a) and (c): for every well-formed block, exit modes lacking NONE imply the block cannot complete normally, and "
          "whatever follows such a prefix is unreachable - against an abstract control-flow semantics in which every condition may go either "
          "way and every statement that evaluates an expression may be defeated (induction over derivations, all programs). The analysis "
